@@ -7,6 +7,7 @@ package main
 import (
 	"fmt"
 	"go/ast"
+	"go/types"
 	"go/parser"
 	"go/token"
 	"path/filepath"
@@ -350,4 +351,40 @@ func skel(repo string) {
 		}
 		fmt.Fprintf(&out, "\n(* %s *)\nDefinition sk_%s : sk :=\n  %s.\n", filepath.Base(fset.Position(fd.Pos()).Filename), strings.ReplaceAll(t, ".", "_"), body)
 	}
+	// ---- argument texts of the calls that fix a postings list's chunk size ----
+	// (writer and reader must derive it from the same quantities: chunk mode, the FULL cardinality of
+	// the list as written, the segment's document count)
+	fmt.Fprintln(&out, "\nFrom Coq Require Import String.")
+	argTargets := []string{"PostingsList.read", "invertedIndexOpaque.writeDicts", "mergeAndPersistInvertedSection"}
+	var rows []string
+	var cardRows []string
+	for _, t := range argTargets {
+		fd, ok := decls[t]
+		if !ok {
+			die("skel: function %s not found", t)
+		}
+		ast.Inspect(fd.Body, func(n ast.Node) bool {
+			ce, ok := n.(*ast.CallExpr)
+			if !ok {
+				return true
+			}
+			var args []string
+			for _, a := range ce.Args {
+				args = append(args, fmt.Sprintf("%q%%string", types.ExprString(a)))
+			}
+			switch calleeName(ce.Fun) {
+			case "getChunkSize":
+				if len(ce.Args) == 3 && types.ExprString(ce.Args[0]) != "LegacyChunkMode" {
+					rows = append(rows, fmt.Sprintf("(%q%%string, [%s])", t, strings.Join(args, "; ")))
+				}
+			case "postingsListFromOffset":
+				if t == "mergeAndPersistInvertedSection" {
+					cardRows = append(cardRows, "["+strings.Join(args, "; ")+"]")
+				}
+			}
+			return true
+		})
+	}
+	fmt.Fprintf(&out, "Definition chunk_size_calls : list (string * list string) :=\n  [%s].\n", strings.Join(rows, ";\n   "))
+	fmt.Fprintf(&out, "Definition merge_postings_loads : list (list string) :=\n  [%s].\n", strings.Join(cardRows, ";\n   "))
 }
